@@ -27,7 +27,7 @@ with group :=     (* styled: blend_mode != Normal || isolate (the writer then em
 with clipdef := CD (ptr id : N) (next : option clipdef) (root : group)      (* ClipPath *)
 with maskdef := MD (ptr id : N) (next : option maskdef) (root : group)      (* Mask *)
 with filterdef := FD (ptr id : N) (prims : list prim)                       (* filter::Filter *)
-with prim := PR (kind : N) (result : N) (inputs : list finput) (img : option group)
+with prim := PR (kind : N) (sub : N) (result : N) (inputs : list finput) (img : option group)
                                                           (* filter::Primitive; Kind::Image => Some root *)
 with paint :=
 | PNone | PColor
@@ -59,10 +59,12 @@ Definition m_root (c : maskdef) := match c with MD _ _ _ r => r end.
 Definition f_ptr (f : filterdef) := match f with FD p _ _ => p end.
 Definition f_id (f : filterdef) := match f with FD _ i _ => i end.
 Definition f_prims (f : filterdef) := match f with FD _ _ p => p end.
-Definition p_kind (p : prim) := match p with PR k _ _ _ => k end.
-Definition p_result (p : prim) := match p with PR _ r _ _ => r end.
-Definition p_inputs (p : prim) := match p with PR _ _ i _ => i end.
-Definition p_img (p : prim) := match p with PR _ _ _ g => g end.
+Definition p_kind (p : prim) := match p with PR k _ _ _ _ => k end.
+Definition p_result (p : prim) := match p with PR _ _ r _ _ => r end.
+Definition p_inputs (p : prim) := match p with PR _ _ _ i _ => i end.
+(* sub: which of x / y / width / height of the primitive's subregion differ from the filter region (bits 1, 2, 4, 8) *)
+Definition p_sub (p : prim) := match p with PR _ s _ _ _ => s end.
+Definition p_img (p : prim) := match p with PR _ _ _ _ g => g end.
 Definition pa_ptr (p : paint) : N :=
   match p with PLin q _ | PRad q _ | PPat q _ _ => q | _ => 0 end.
 Definition pa_id (p : paint) : N :=
@@ -152,7 +154,7 @@ Section Walk.
     end
   with walk_prim (p : prim) (a : A) {struct p} : A :=
     match p with
-    | PR _ _ _ img => match img with Some r => walk_group r a | None => a end
+    | PR _ _ _ _ img => match img with Some r => walk_group r a | None => a end
     end
   with walk_paint (p : paint) (a : A) {struct p} : A :=
     match p with PPat _ _ r => walk_group r a | _ => a end.
@@ -251,7 +253,7 @@ with all_filter (fd : filterdef) {struct fd} : list node :=
                        match l with [] => [] | p :: r => all_prim p ++ go r end) prims
   end
 with all_prim (p : prim) {struct p} : list node :=
-  match p with PR _ _ _ img => match img with Some r => all_group r | None => [] end end
+  match p with PR _ _ _ _ img => match img with Some r => all_group r | None => [] end end
 with all_paint (p : paint) {struct p} : list node :=
   match p with PPat _ _ r => all_group r | _ => [] end.
 
